@@ -289,7 +289,9 @@ def work(chunk, cfg, bound):
         depth = 1
         while level and depth <= bound:
             try:
-                answers = ex.run(['walk C0 prog=%s' % progstr(p) for p in level])
+                answers = []
+                for b0 in range(0, len(level), 1500):      # bounded scripts: a level can hold hundreds of thousands of walks
+                    answers += ex.run(['walk C0 prog=%s' % progstr(p) for p in level[b0:b0 + 1500]], timeout=600)
             except Crash as c:
                 out.append((name, level[0], 'executor crashed in a batch starting with this program: %s %s' % (c, c.stderr[-1500:]), 0))
                 ex = worker_exec(cfg)
